@@ -156,7 +156,12 @@ class StmtMixin(object):
     def ex_Expr(self, s, st):
         if isinstance(s.value, ast.Constant):
             return [Outcome('next', st)]      # docstring
-        return self.from_res(self.ev(s.value, st), lambda s2, v: [Outcome('next', s2)])
+        def k(s2, v):
+            from . import rely as _rely
+            if _rely.is_pending(v):
+                return self.from_res(_rely.drop_pending(self, s2, v, s), lambda s3, v3: [Outcome('next', s3)])
+            return [Outcome('next', s2)]
+        return self.from_res(self.ev(s.value, st), k)
 
     def ex_Pass(self, s, st):
         return [Outcome('next', st)]
